@@ -57,6 +57,10 @@ class _TextCueParser:
   def __init__(self, paragraph: model.P, line_number: int) -> None:
     self.line_num: int = line_number
     self.parent: model.ContentElement = paragraph
+    self.paragraph: model.P = paragraph
+
+    # begin of the text that follows the latest timestamp tag, relative to the begin of the cue
+    self.text_begin: typing.Optional[Fraction] = None
 
     # parents of the elements that are currently open, outermost first
     self.open_parents: typing.List[model.ContentElement] = []
@@ -103,25 +107,14 @@ class _TextCueParser:
     self.parent = element
 
   def _handle_ts(self, token: TimestampTagToken):
-
-    if len(self.open_parents) >= _MAX_TAG_NESTING:
-      LOGGER.warning("Timestamp tag %s at line %s is nested too deeply and is ignored", token.timestamp, self.line_num)
-      return
-
-    span = self._make_span(self.parent)
-    self._push_child(span)
-    self._open(span)
+    # a timestamp tag is not an element: the text that follows it, whatever tags are opened or closed in between,
+    # appears at that time
 
     ts = vtt_timestamp_to_secs(token.timestamp)
-    parent_begin = None
-    parent = self.parent
-    while parent is not None:
-      parent_begin = parent.get_begin()
-      if parent_begin is not None:
-        break
-      parent = parent.parent()
-    if ts is not None and parent_begin is not None and parent_begin <= ts:
-      span.set_begin(ts - parent_begin)
+    cue_begin = self.paragraph.get_begin()
+
+    if ts is not None and cue_begin is not None and cue_begin <= ts:
+      self.text_begin = ts - cue_begin
     else:
       LOGGER.warning("Invalid timestamp tag %s", token.timestamp)
 
@@ -225,6 +218,8 @@ class _TextCueParser:
         self._push_child(model.Br(self.parent.get_doc()))
       span = self._make_span(self.parent)
       span.push_child(model.Text(self.parent.get_doc(), line))
+      if self.text_begin is not None:
+        span.set_begin(self.text_begin)
       self._push_child(span)
 
   def _make_span(self, parent: model.ContentElement) -> model.Span:
